@@ -280,7 +280,7 @@ def parse_youtube_url(url, fix_common_mistakes=True):
     # youtu.be
     if parsed.hostname and parsed.hostname.endswith("youtu.be"):
 
-        if path.count("/") > 0:
+        if path.count("/") > 0 and pathsplit(path):
             v = pathsplit(path)[0]
 
             if fix_common_mistakes:
@@ -358,9 +358,12 @@ def parse_youtube_url(url, fix_common_mistakes=True):
         if len(splitted_path) < 2:
             return None
 
-        name = splitted_path[1]
+        name = splitted_path[1].lstrip("@")
 
-        return YoutubeChannel(id=None, name=name.lstrip("@"))
+        if not name:
+            return None
+
+        return YoutubeChannel(id=None, name=name)
 
     elif path.startswith("/channel/"):
         splitted_path = pathsplit(path)
@@ -396,7 +399,12 @@ def parse_youtube_url(url, fix_common_mistakes=True):
             if name in YOUTUBE_CHANNEL_NAME_BLACKLIST:
                 return
 
-            return YoutubeChannel(id=None, name=name.lstrip("@"))
+            name = name.lstrip("@")
+
+            if not name:
+                return
+
+            return YoutubeChannel(id=None, name=name)
 
 
 def extract_video_id_from_youtube_url(url):
